@@ -393,8 +393,9 @@ Result runSL(const Case& cs) {
 template <int n>
 Result runRV(const Case& cs) {
   using RV = Dune::ReservedVector<int, n>;
-  // shadow: std::vector of optional<int>; nullopt = value left unspecified by the interface
-  // (slots uncovered by resize()/the count constructor are not initialised by ReservedVector)
+  // shadow: std::vector (kept as optional<int>; never empty any more).  Slots uncovered by resize()/the count
+  // constructor are not initialised by ReservedVector, so the ops `resize k` / `ctorc k` of this protocol assign 0
+  // to every uncovered slot right away: no unspecified value is ever observed or compared.
   struct Side { RV v; std::vector<std::optional<int>> sh; };
   Side S[2];
   Out out;
@@ -428,7 +429,12 @@ Result runRV(const Case& cs) {
       } else if (op == "clear" && w.size() == 1) {
         ok = true; s.v.clear(); s.sh.clear(); stat("rv_clear");
       } else if (op == "resize" && w.size() == 2 && isNat(w[1]) && std::stol(w[1]) <= n) {
-        ok = true; s.v.resize(std::stol(w[1])); s.sh.resize(std::stol(w[1]), std::nullopt); stat("rv_resize");
+        ok = true;
+        std::size_t old = s.sh.size(), k = std::stol(w[1]);
+        s.v.resize(k);
+        for (std::size_t i = old; i < k; ++i) s.v[i] = 0;  // uncovered slots are unspecified: define them
+        s.sh.resize(k, 0);
+        stat(k > old ? "rv_resize_grow" : "rv_resize");
       } else if (op == "set" && w.size() == 3 && isNat(w[1]) && isInt(w[2]) && std::stol(w[1]) < (long)s.sh.size()) {
         ok = true; s.v[std::stol(w[1])] = std::stoi(w[2]); s.sh[std::stol(w[1])] = std::stoi(w[2]); stat("rv_set");
       } else if (op == "at" && w.size() == 2 && isNat(w[1])) {
@@ -447,7 +453,11 @@ Result runRV(const Case& cs) {
       } else if (op == "ctor" && w.size() == 1) {
         ok = true; s.v = RV(); s.sh.clear(); stat("rv_ctor");
       } else if (op == "ctorc" && w.size() == 2 && isNat(w[1]) && std::stol(w[1]) <= n) {
-        ok = true; s.v = RV(std::stol(w[1])); s.sh.assign(std::stol(w[1]), std::nullopt); stat("rv_ctorc");
+        ok = true;
+        s.v = RV(std::stol(w[1]));
+        for (long i = 0; i < std::stol(w[1]); ++i) s.v[i] = 0;  // as for resize
+        s.sh.assign(std::stol(w[1]), 0);
+        stat("rv_ctorc");
       } else if (op == "ctorv" && w.size() == 3 && isNat(w[1]) && isInt(w[2]) && std::stol(w[1]) <= n) {
         ok = true; s.v = RV(std::stol(w[1]), std::stoi(w[2])); s.sh.assign(std::stol(w[1]), std::stoi(w[2])); stat("rv_ctorv");
       } else if (op == "init" && w.size() == 2 && isList(w[1]) && (long)parseList(w[1]).size() <= n) {
